@@ -25,10 +25,15 @@ def mk_pipeline(factory, label, directive='openacc', **kw):
             edges[items['compute_column']] = [items['inner_kernel']]
         graph = SGraph.from_dict(edges)
         args = dict(horizontal=horizontal, block_dim=blocking, directive=directive)
-        try:
-            pipe = factory(**args, **kw)
-        except TypeError:
-            pipe = factory(**args, vertical=vertical, **kw)
+        kw2 = dict(kw)
+        with_vertical = kw2.pop('with_vertical', False)
+        if with_vertical:
+            pipe = factory(**args, vertical=vertical, **kw2)
+        else:
+            try:
+                pipe = factory(**args, **kw2)
+            except TypeError:
+                pipe = factory(**args, vertical=vertical, **kw2)
         for k in reversed(kernels):
             targets = ['inner_kernel'] if k.name.lower() == 'compute_column' and 'inner_kernel' in allr else []
             pipe.apply(k, role='kernel', item=items[k.name.lower()], targets=targets, sub_sgraph=graph.get_sub_sgraph(items[k.name.lower()]) if hasattr(graph, 'get_sub_sgraph') else graph)
@@ -96,6 +101,9 @@ KERNELS = {
     'temporaries-2d-1d': ('  real :: tmp(nlon, nz)\n  real :: s(nlon)', '  c = 2.0\n  do jk = 1, nz\n    do jl = start, end\n      tmp(jl, jk) = q(jl, jk) * c + jk\n    end do\n  end do\n  do jl = start, end\n    s(jl) = tmp(jl, 1) + tmp(jl, nz)\n  end do\n  do jk = 1, nz\n    do jl = start, end\n      t(jl, jk) = tmp(jl, jk) - s(jl)\n      q(jl, jk) = s(jl)\n    end do\n  end do'),
     'vector-sections': ('  real :: s(nlon)', '  c = 1.5\n  s(start:end) = q(start:end, nz)\n  do jk = 1, nz\n    q(start:end, jk) = q(start:end, jk)*c + s(start:end)\n  end do\n  t(start:end, 1) = s(start:end)'),
     'conditional-horizontal': ('  real :: s(nlon)', '  c = 0.5\n  do jl = start, end\n    s(jl) = 0.\n  end do\n  do jk = 1, nz\n    do jl = start, end\n      if (q(jl, jk) > c) then\n        s(jl) = s(jl) + q(jl, jk)\n        t(jl, jk) = s(jl)\n      else\n        q(jl, jk) = c\n      end if\n    end do\n  end do'),
+    # vertical loops in one fusion group; a half-level temporary (nz+1 levels) read at jk and jk+1: must not be demoted
+    'fused-vertical-half-levels': ('  real :: zflux(nlon, nz+1)\n  real :: zt(nlon, nz)', '  c = 0.5\n  do jl = start, end\n    zflux(jl, 1) = 0.\n  end do\n  !$loki loop-fusion group(v)\n  do jk = 1, nz\n    do jl = start, end\n      zflux(jl, jk+1) = zflux(jl, jk) + q(jl, jk)*c\n    end do\n  end do\n  !$loki loop-fusion group(v)\n  do jk = 1, nz\n    do jl = start, end\n      zt(jl, jk) = zflux(jl, jk+1) - zflux(jl, jk)\n      t(jl, jk) = zt(jl, jk) + zflux(jl, jk+1)*jk\n    end do\n  end do'),
+    'fused-vertical-full-levels': ('  real :: zt(nlon, nz)\n  real :: zs(nlon, nz)', '  c = 0.25\n  !$loki loop-fusion group(v)\n  do jk = 1, nz\n    do jl = start, end\n      zt(jl, jk) = q(jl, jk)*c + jk\n    end do\n  end do\n  !$loki loop-fusion group(v)\n  do jk = 1, nz\n    do jl = start, end\n      zs(jl, jk) = zt(jl, jk)*2.0\n      t(jl, jk) = zs(jl, jk) - zt(jl, jk)\n    end do\n  end do\n  do jl = start, end\n    q(jl, nz) = zt(jl, 1) + zs(jl, nz)\n  end do'),
     'vertical-outside-horizontal-mixed': ('  real :: s(nlon)', '  c = 3.0\n  do jl = start, end\n    s(jl) = q(jl, 1)\n    do jk = 2, nz\n      s(jl) = s(jl) + q(jl, jk)*c\n      t(jl, jk) = s(jl)\n    end do\n    q(jl, 1) = s(jl)\n  end do'),
 }
 
@@ -127,7 +135,8 @@ S = [{'nlon': 2, 'nz': 2, 'nb': 2}, {'nlon': 3, 'nz': 2, 'nb': 1}, {'nlon': 2, '
 def c37_cases():
     out = []
     pipes = [('vvector', SCCVVectorPipeline, {}), ('svector', SCCSVectorPipeline, {}), ('vhoist', SCCVHoistPipeline, {}),
-             ('shoist', SCCSHoistPipeline, {}), ('vvector-openmp', SCCVVectorPipeline, {'_dir': 'omp-gpu'})]
+             ('shoist', SCCSHoistPipeline, {}), ('vvector-openmp', SCCVVectorPipeline, {'_dir': 'omp-gpu'}),
+             ('vvector-vertical', SCCVVectorPipeline, {'with_vertical': True}), ('svector-vertical', SCCSVectorPipeline, {'with_vertical': True})]
     for name, src in sources():
         for pn, fac, kw in pipes:
             kw = dict(kw)
